@@ -99,6 +99,7 @@ func (e *Exec) call(fr *frame, x *ssa.Call, reach Term, st *State) Term {
 			}
 			e.trusted["dynamic function value call: result arbitrary, no effect on modelled state"] = true
 			havocResult("dyncall")
+			e.dynamicCallAnchors(fr, st)
 			return reach
 		}
 	}
@@ -801,6 +802,30 @@ func (e *Exec) afterCallAnchors(fr *frame, fn *ssa.Function, x *ssa.Call, reach 
 				e.c.oblige(&Oblig{Name: e.unit + "#vacuity:assert-reachable:" + label, Kind: "vacuity", Fn: e.unit, Goal: e.c.not(reach), Props: e.props, Expect: "sat"})
 			}
 			e.c.assume(e.c.implies(reach, g), "")
+		}
+	}
+}
+
+// dynamicCallAnchors: ghost updates anchored "call dynamic" (a call through a function value whose
+// target is not known statically, e.g. a handler taken from a table)
+func (e *Exec) dynamicCallAnchors(fr *frame, st *State) { e.plainAnchors(fr, st, "call dynamic", nil) }
+
+// plainAnchors: ghost updates at an anchor that is not a static call
+func (e *Exec) plainAnchors(fr *frame, st *State, anchor string, res []Val) {
+	if fr == nil || fr.spec == nil || len(e.curFn) != 1 {
+		return
+	}
+	for _, gu := range fr.spec.GhostUpd {
+		if gu.Anchor == anchor {
+			env := fr.specEnv(st)
+			env.result = res
+			v := e.evalSpec(gu.E, env)
+			old, ok := e.ghost[gu.Var]
+			if !ok {
+				e.fail("unknown ghost variable %s", gu.Var)
+			}
+			v = env.typed(v, old.Typ)
+			st.cells["l:ghost."+gu.Var] = v.T()
 		}
 	}
 }
